@@ -39,13 +39,13 @@ func TestVerif_C39_Sched(t *testing.T) {
 
 	bound := venum.QT(2, 3)
 	sp := venum.Explore(t, venum.Cfg{Name: "async-emitter-schedules", PreemptBound: bound, Shardable: true, CheckDeterminism: true}, func(x *venum.X) {
-		scenario := x.Choose(3, "scenario") // 0 gated writer, 1 racing closer, 2 closer + late enqueue
+		scenario := x.Choose(4, "scenario") // 0 gated writer, 1 racing closer, 2 closer + late enqueue, 3 gated writer + racing closer
 		queue := 1 + x.Choose(2, "queue")
 		perThread := 2
 		if scenario == 0 && venum.Thorough() {
 			perThread = 3
 		}
-		gated := scenario == 0
+		gated := scenario == 0 || scenario == 3
 		w := &vfGateWriter{}
 		if gated {
 			w.gated = &gated
@@ -55,14 +55,39 @@ func TestVerif_C39_Sched(t *testing.T) {
 		beforeClose := map[string]bool{}
 		closeCalled := false
 		res := vsched.Run(x, vsched.Opts{MaxSteps: 4000}, func() {
-			if err := hook.SetAsync(queue); err != nil {
-				x.Failf("C39:setasync", "%v", err)
-				return
+			if scenario != 3 {
+				if err := hook.SetAsync(queue); err != nil {
+					x.Failf("C39:setasync", "%v", err)
+					return
+				}
+			}
+			// scenario 3 drives the emitter itself: once Close has been CALLED on
+			// the hook, later emits are synchronous writes (and may wait for the
+			// writer's lock), which is outside "with async emission".
+			var direct *asyncEmitter
+			if scenario == 3 {
+				var derr error
+				direct, derr = newAsyncEmitter(queue, func(rec map[string]any) {
+					line, _ := json.Marshal(rec)
+					_, _ = w.Write(append(line, '\n'))
+				})
+				if derr != nil {
+					x.Failf("C39:newAsyncEmitter", "%v", derr)
+					return
+				}
 			}
 			enq := func(name string) func() {
 				return func() {
 					for i := 1; i <= perThread; i++ {
 						id := fmt.Sprintf("%s%d", name, i)
+						if direct != nil {
+							direct.enqueue(map[string]any{"id": id, "status": "ok"})
+							order = append(order, id)
+							if !closeCalled {
+								beforeClose[id] = true
+							}
+							continue
+						}
 						hook.emit(map[string]any{"id": id, "status": "ok"})
 						order = append(order, id)
 						if !closeCalled {
@@ -79,6 +104,16 @@ func TestVerif_C39_Sched(t *testing.T) {
 				gated = false
 				closeCalled = true
 				_ = hook.Close()
+			case 3:
+				// Close is called while the writer is stalled: it may wait for the
+				// drain, but enqueuers must still return (enqueueing never blocks).
+				tc := vsched.GoNamed("closer", func() {
+					closeCalled = true
+					direct.close()
+				})
+				vsched.Join(t1, t2)
+				gated = false
+				vsched.Join(tc)
 			default:
 				tc := vsched.GoNamed("closer", func() {
 					closeCalled = true
